@@ -744,7 +744,10 @@ func (ex *Exec) checkInvariants(f *frame, st *State, li *loopInfo, at *ssa.Basic
 		return
 	}
 	for _, inv := range ls.Invariants {
-		t, err := ex.V.transExpr(ex, f, inv.Expr, st, f.entry, nil)
+		genv := ex.frameEnv(f, st, f.entry)
+		genv.goal = true
+		tvv, err := genv.trans(inv.Expr)
+		t := tvv.t
 		if err != nil {
 			ex.oblige(f, st, "invariant", fmt.Sprintf("loop%d:%s:does-not-attach", li.ordinal, inv.Label), inv.Label, li.header.Instrs[0].Pos(), tFalse, "the contract no longer attaches to the code ("+err.Error()+"): "+inv.Text)
 			continue
